@@ -78,6 +78,20 @@ class C03(props.Prop):
         # adversarial acceptance probability
         for rule in spec['model']['rules']:
             _set_p(rule[0], rng.choice([0.03, 0.1, 0.2, 0.35, 0.5]))
+        if rng.random() < 0.4:
+            # neighbourhood adversary: accepts every input whose tokens differ
+            # from the original's by at most m (keeps the structure, accepts
+            # small rewrites in both directions: inverse pairs of mutators
+            # then cycle)
+            toks = list(reftok.tokenize(spec['input']))
+            near = {'k': 'near', 'toks': toks,
+                    'm': rng.choice([2, 3, 4, 6, 10]),
+                    # nothing (or little) can be erased: only rewrites of
+                    # about the same size are accepted
+                    'len_tol': rng.choice([0, 0, 1, 2, 4])}
+            if rng.random() < 0.5:
+                near = {'k': 'and', 'a': [near, {'k': 'wf'}]}
+            spec['model']['rules'] = [[near, 'bug']]
         reg = mutator_registry()
         k = rng.random()
         if k < 0.35:
